@@ -41,6 +41,13 @@ func genC19(r *Rng, k int, tier string) *RunSpec {
 		id := fmt.Sprintf("r%d", i)
 		payload := mustJSON(J{"@context": asCtx, "type": "Create", "id": fmt.Sprintf("https://%s/act/%d-%d", hostA, k, i), "actor": st.Alice.ID,
 			"object": J{"type": "Note", "content": strings.Repeat("x", r.Intn(200))}})
+		// payloads are the caller's business: none at all, the empty object, or an activity
+		switch r.Intn(10) {
+		case 0:
+			payload = nil
+		case 1:
+			payload = mustJSON(J{})
+		}
 		switch x := r.Intn(10); {
 		case x < 6:
 			n := r.Intn(5)
@@ -55,7 +62,8 @@ func genC19(r *Rng, k int, tier string) *RunSpec {
 				if len(rc) > 0 && r.Intn(6) == 0 {
 					rc = append(rc, Pick(r, rc)) // duplicates allowed
 				} else {
-					rc = append(rc, fmt.Sprintf("https://%s/u/p%d/inbox", Pick(r, []string{"peer0.example", "peer1.example", "peer2.example", "peer3.example", "peer1.example:8443", "[2001:db8::1]:8080", "peer2.example:443"}), j))
+					rc = append(rc, fmt.Sprintf("https://%s/u/%sp%d/inbox%s", Pick(r, []string{"peer0.example", "peer1.example", "peer2.example", "peer3.example", "peer1.example:8443", "[2001:db8::1]:8080", "peer2.example:443"}),
+						Pick(r, []string{"", "", "", "", "caf%C3%A9-", "%7E", "a%20b%25-"}), j, Pick(r, []string{"", "", "", "", "?shared=1", "?n=50%25&u=%C3%A9"})))
 				}
 			}
 			reqs = append(reqs, ReqSpec{ID: id, Server: hostA, Kind: "txBatch", Body: payload, Recipients: rc})
@@ -63,7 +71,7 @@ func genC19(r *Rng, k int, tier string) *RunSpec {
 				tx.Fates[fmt.Sprintf("%s.%d#1", id, j+1)] = fate()
 			}
 		case x < 8:
-			reqs = append(reqs, ReqSpec{ID: id, Server: hostA, Kind: "txDeliver", Body: payload, Recipients: []string{Pick(r, []string{"https://peer1.example/u/solo/inbox", "https://peer1.example:8443/u/solo/inbox", "http://[2001:db8::2]:8080/u/solo/inbox"})}})
+			reqs = append(reqs, ReqSpec{ID: id, Server: hostA, Kind: "txDeliver", Body: payload, Recipients: []string{Pick(r, []string{"https://peer1.example/u/solo/inbox", "https://peer1.example:8443/u/solo/inbox", "http://[2001:db8::2]:8080/u/solo/inbox", "https://peer1.example/u/s%C3%B3lo/inbox?x=%25"})}})
 			tx.Fates[id+"#1"] = fate()
 		default:
 			reqs = append(reqs, ReqSpec{ID: id, Server: hostA, Kind: "txDeref", Recipients: []string{fmt.Sprintf("https://%s/n/%d", Pick(r, []string{"peer2.example", "peer2.example:444", "[2001:db8::3]"}), r.Intn(9))}})
@@ -177,7 +185,7 @@ func oracleC19(c *DriveCtx, res *Result) {
 			}
 		case "txDeliver":
 			fate := w.spec.Fates[t.ID+"#1"]
-			if taskFaulted(res, t) {
+			if taskFaulted(res, t) || signerRefused(w, t) {
 				if t.Err == nil {
 					s.violate("C19", "signer-error-swallowed", "Deliver", "the signer failed and Deliver reported success")
 				}
@@ -189,7 +197,7 @@ func oracleC19(c *DriveCtx, res *Result) {
 		case "txDeref":
 			fate := w.spec.Fates[t.ID+"#1"]
 			body, _ := t.Result.(string)
-			if taskFaulted(res, t) {
+			if taskFaulted(res, t) || signerRefused(w, t) {
 				if t.Err == nil {
 					s.violate("C19", "signer-error-swallowed", "Dereference", "the signer failed and Dereference reported success")
 				}
@@ -208,6 +216,15 @@ func oracleC19(c *DriveCtx, res *Result) {
 	}
 }
 
+func signerRefused(w *TxWorld, t *Task) bool {
+	for _, sf := range w.SignFails {
+		if sf.Task == t.ID {
+			return true
+		}
+	}
+	return false
+}
+
 func batchFates(w *TxWorld, t *Task) []string {
 	var out []string
 	for i := range t.Req.Recipients {
@@ -222,7 +239,7 @@ func batchFates(w *TxWorld, t *Task) []string {
 func init() {
 	register(&PropDef{
 		ID: "C19", Level: "exploration", Engine: "txsim",
-		Rule: "case = 1-3 concurrent calls (BatchDeliver with 0-24 recipients, thorough up to 64, duplicates allowed; Deliver; Dereference) on ONE HttpSigTransport value with real httpsig RSA-SHA256 or HMAC-SHA256 signers over five signed-header lists, per-request response fates (200/201/202, any status 100-599, boundary statuses 199/203/204/301, transport error, body read error), signer failures, seeded schedule (fifo / random / sticky / PCT) over the library's goroutines, signer mutexes, signer bodies and HTTP calls, per-run clock base/zone and clock jumps; oracle at SignRequest (key, key id, headers already set, stateful signer never entered by two tasks), at HttpClient.Do (headers unchanged since signing, User-Agent/Host/Accept/Content-Type/Date, Digest, real httpsig verification of what the client receives, body bytes = signed bytes), and on results (each recipient occurrence attempted exactly once, error iff a failure, every failed recipient named, return only after all attempts finished, status classification). distinct = distinct (scenario, interleaving) event sequences.",
+		Rule: "case = 1-3 concurrent calls (BatchDeliver with 0-24 recipients, thorough up to 64, duplicates allowed, recipient URLs with ports, IPv6 literals, percent-escaped paths and queries; Deliver; Dereference; payload an activity, the empty object or no bytes at all) on ONE HttpSigTransport value with real httpsig RSA-SHA256 or HMAC-SHA256 signers over five signed-header lists, per-request response fates (200/201/202, any status 100-599, boundary statuses 199/203/204/301, transport error, body read error), signer failures, seeded schedule (fifo / random / sticky / PCT) over the library's goroutines, signer mutexes, signer bodies and HTTP calls, per-run clock base/zone and clock jumps; oracle at SignRequest (key, key id, headers already set, stateful signer never entered by two tasks), at HttpClient.Do (headers unchanged since signing, User-Agent/Host/Accept/Content-Type/Date, Digest, real httpsig verification of what the client receives, body bytes = signed bytes), and on results (each recipient occurrence attempted exactly once, error iff a failure, every failed recipient named, return only after all attempts finished, status classification). distinct = distinct (scenario, interleaving) event sequences.",
 		QuickCases: 2500, QuickBudgetS: 60, ThoroughBudgetS: 600,
 		ExpectProbes: []string{"lock-contention-mutex"},
 		Drive:  func(c *DriveCtx, r *Rng, k int) { c.Exec(genC19(r, k, c.Tier)) },
